@@ -183,6 +183,7 @@ func checkC08(c *Ctx) {
 			ru5.OK(key, c.where(f, f), "delegates to another mutator")
 			continue
 		}
+		f, _ = c.mutatorCore(d, f, 2)
 		want, other := "LastAdded", "LastDeleted"
 		if m.kind == "deleted" {
 			want, other = other, want
@@ -215,7 +216,7 @@ func checkC08(c *Ctx) {
 		ru5.Check(okStamp && badStamp == "", key, c.where(f, f), want+" = clock()", badStamp+map[bool]string{true: "", false: " no " + want + " = clock() store found"}[okStamp])
 	}
 
-	c.ruleVisibility("C08-R6", d, 6)
+	c.ruleVisibility("C08-R6", d, 3)
 	c.ruleDelegateWiring("C08-R7", d)
 }
 
